@@ -133,8 +133,17 @@ for f in sys.argv[1:]:
     mm = model_matrix(f, df, drop_rows=dr)
     mats = list(mm) if not hasattr(mm, "shape") else [mm]
     again = [m.model_spec.get_model_matrix(df) for m in mats]
+    # derived specs (subset to all but the first term) are part of the result too
+    subs = []
+    for m in mats:
+        try:
+            terms = list(m.model_spec.formula)
+            sub = m.model_spec.subset(terms[1:] if len(terms) > 2 else terms)
+            subs.append([list(sub.column_names), hashlib.sha1(np.asarray(sub.get_model_matrix(df), dtype=float).tobytes()).hexdigest()])
+        except Exception as e:
+            subs.append([type(e).__name__])
     out[f] = [[list(m.model_spec.column_names), hashlib.sha1(np.asarray(m, dtype=float).tobytes()).hexdigest(), sorted(int(x) for x in dr),
-               hashlib.sha1(np.asarray(g, dtype=float).tobytes()).hexdigest()] for m, g in zip(mats, again)]
+               hashlib.sha1(np.asarray(g, dtype=float).tobytes()).hexdigest(), sb] for m, g, sb in zip(mats, again, subs)]
 print(json.dumps(out, sort_keys=True))
 '''
 SEED_FORMULAS = ["a + b + A + B + a:A + b:B + A:B", "y ~ x".replace("y", "c").replace("x", "center(a) + scale(b) + A:B + poly(c, 2)"),
